@@ -188,7 +188,16 @@ def describe(s):
 FINDING_PREDS = {}
 
 
+# texts of repaired parser defects (F30: tangled brackets / parentheses; F21: escaped or regex quote-wrapped search
+# terms; F25: text glued to a collector) - too long for the exhaustive part, run first on every tier
+WITNESSES = ["[(a)]", "a[(b)]", "(][max(())]", "[a=(b)]", "[a='(b)']", "[a='(b)'=c]", "[a=[b(c)]=d]", "[max()\\])",
+             "[max('a)]]", "[max(])", "'a]'", "(a])", "(a[0])", "[a=[b]]", "[a=\\']", "[a=\\'x\\']", "[a=~/'x'/]",
+             "[a='x']", "[a='x\\'']", "[' '=\\'x\\']", "[a=\"'x'\"]", "[a='x'<\\'y\\']", "(a)b", "(a)'b'", "a.(&b)",
+             "[max(\\')]"]
+
+
 def chunks(tier, seed):
+    yield list(WITNESSES)
     L = 4
     size = 1500
     buf = []
